@@ -1359,3 +1359,264 @@ def rule_interval_sum(ctx: Ctx, prog: Program) -> None:
                                   "each to swap its bound between the branches; as written one accumulator no longer bounds the sum, so the test or "
                                   "the pruning derived from it is wrong (e.g. 'entailed' declared on a box that still contains violating tuples)")
     ctx.floor("R-INTERVAL-SUM:sign-branching-scans", n, 3)
+
+
+# ------------------------------------------------------------------ R-AFFINE-BOUND
+def _sign_scans(prog: Program, fn: FuncInfo):
+    """The sign-branching accumulator scans of a function: [(for node, coefficient name, {acc: {'pos': bound, 'neg': bound}})]."""
+    MIN, MAX = prog.C("MIN"), prog.C("MAX")
+
+    def bound_name(e: ast.expr) -> Optional[str]:
+        v = prog.fold(fn.module, e)
+        return "MIN" if v == MIN and v is not NO else "MAX" if v == MAX and v is not NO else None
+
+    def updates(stmts: List[ast.stmt]) -> Dict[str, Set[str]]:
+        out: Dict[str, Set[str]] = {}
+        for st in stmts:
+            tgt = None
+            val: Optional[ast.expr] = None
+            if isinstance(st, ast.AugAssign) and isinstance(st.target, ast.Name) and isinstance(st.op, (ast.Add, ast.Sub)):
+                tgt, val = st.target.id, st.value
+            elif isinstance(st, ast.Assign) and len(st.targets) == 1 and isinstance(st.targets[0], ast.Name) and isinstance(st.value, ast.BinOp) \
+                    and isinstance(st.value.op, (ast.Add, ast.Sub)) and isinstance(st.value.left, ast.Name) and st.value.left.id == st.targets[0].id:
+                tgt, val = st.targets[0].id, st.value.right
+            if tgt is None or val is None:
+                continue
+            bs = set()
+            for x in ast.walk(val):
+                if isinstance(x, ast.Subscript) and isinstance(x.slice, ast.Tuple) and len(x.slice.elts) == 2:
+                    b = bound_name(x.slice.elts[1])
+                    if b:
+                        bs.add(b)
+            if bs:
+                out.setdefault(tgt, set()).update(bs)
+        return out
+
+    res = []
+    for loop in [x for x in ast.walk(fn.node) if isinstance(x, ast.For)]:
+        for node in loop.body:
+            if not (isinstance(node, ast.If) and node.orelse and not (len(node.orelse) == 1 and isinstance(node.orelse[0], ast.If))):
+                continue
+            names = [x.id for x in ast.walk(loop.target) if isinstance(x, ast.Name)]
+            cn = next((nm for nm in names if _sign_of_test(node.test, nm) is not None), None)
+            if cn is None:
+                continue
+            sg = _sign_of_test(node.test, cn)
+            a, b = updates(node.body), updates(node.orelse)
+            accs = sorted(set(a) & set(b))
+            if len(accs) != 2 or any(len(a[x]) != 1 or len(b[x]) != 1 for x in accs):
+                continue
+            tbl: Dict[str, Dict[str, str]] = {}
+            for acc in accs:
+                ba, bb = next(iter(a[acc])), next(iter(b[acc]))
+                ent: Dict[str, str] = {}
+                for s in sg[0]:
+                    ent[s] = ba
+                for s in sg[1]:
+                    ent[s] = bb
+                tbl[acc] = ent
+            res.append((loop, cn, tbl))
+    return res
+
+
+class _Rnd:
+    """A value as `base cells + sum of quotient terms`, each term (sign, numerator text with its own sign, divisor sign parity, rounding)."""
+    __slots__ = ("cells", "quots", "other")
+
+    def __init__(self):
+        self.cells: List[Tuple[int, str, str]] = []   # (sign, row text, bound)
+        self.quots: List[Tuple[int, str, int, bool]] = []   # (outer sign, accumulator name, sign of the real quotient relative to acc/c, rounded down?)
+        self.other: List[str] = []
+
+
+def rule_affine_bound(ctx: Ctx, prog: Program) -> None:
+    """Bounds derived from a linear (in)equality by division.  In a filtering function that first scans its variables keeping two interval
+    accumulators `A = k - sum(...)` (R-INTERVAL-SUM) and then stores, per variable, `cell <- base + A // c`, four beliefs meet and must agree:
+      own-contribution  the accumulator has subtracted `c * x[i, B]` for this sign of c; the store adds that contribution back, so its base is
+                        the same cell `x[i, B]` (a different bound gives a bound computed from a sum that still contains / lacks the variable);
+      store-side        what `base + A / c` bounds is the *other* bound of the variable (from x.MIN upwards one derives a maximum);
+      quotient-sign     the real value is `base + A / c` (each negation of numerator / divisor / term accounted for);
+      rounding          an integer maximum derived from a rational one is its floor, an integer minimum its ceiling: `//` rounds down, so the
+                        term must enter a MAX store with an even and a MIN store with an odd number of outer negations (rounding the other
+                        way keeps a value the constraint excludes: on a box that is a single tuple the violation is then not rejected).
+    No specification of the constraint is consulted: the statements of one function contradict each other.  A store whose value holds an
+    accumulator under `//` but cannot be decomposed is an analysis error (exit 2), never a violation."""
+    ctx.rule("R-AFFINE-BOUND")
+    n_sites = 0
+    for _, fn, _ in propagator_triples(prog):
+        scans = _sign_scans(prog, fn)
+        if not scans:
+            continue
+        acc_tbl: Dict[str, Dict[str, str]] = {}
+        for _, _, tbl in scans:
+            acc_tbl.update(tbl)
+        # the domains parameter and its copies
+        dom = fn.params[0] if fn.params else None
+        copies: Set[str] = {dom} if dom else set()
+        for st in ast.walk(fn.node):
+            if isinstance(st, ast.Assign) and len(st.targets) == 1 and isinstance(st.targets[0], ast.Name) and isinstance(st.value, ast.Call):
+                f = st.value.func
+                nm = f.attr if isinstance(f, ast.Attribute) else f.id if isinstance(f, ast.Name) else ""
+                if nm == "copy" and ((st.value.args and isinstance(st.value.args[0], ast.Name) and st.value.args[0].id in copies)
+                                     or (isinstance(f, ast.Attribute) and isinstance(f.value, ast.Name) and f.value.id in copies)):
+                    copies.add(st.targets[0].id)
+        ctx.fn(fn.fq)
+
+        def walk(stmts: List[ast.stmt], cn: Optional[str], signs: frozenset, env: Dict[str, ast.expr], ivar: Optional[str]) -> None:
+            nonlocal n_sites
+            env = dict(env)
+            for k, st in enumerate(stmts):
+                if isinstance(st, ast.For):
+                    names = [x.id for x in ast.walk(st.target) if isinstance(x, ast.Name)]
+                    walk(st.body, cn, signs, env, ivar) if not names else walk_loop(st, names, env)
+                elif isinstance(st, ast.If):
+                    sg = _sign_of_test(st.test, cn) if cn else None
+                    if sg is not None:
+                        # a test of the coefficient's sign: the statements that follow are read once per branch (path-sensitive on the sign)
+                        if signs & sg[0]:
+                            walk(list(st.body) + list(stmts[k + 1:]), cn, signs & sg[0], env, ivar)
+                        if signs & sg[1]:
+                            walk(list(st.orelse) + list(stmts[k + 1:]), cn, signs & sg[1], env, ivar)
+                        return
+                    else:
+                        walk(st.body, cn, signs, env, ivar)
+                        walk(st.orelse, cn, signs, env, ivar)
+                    for x in ast.walk(st):  # locals assigned under a branch are not substituted afterwards
+                        if isinstance(x, ast.Assign):
+                            for t in x.targets:
+                                if isinstance(t, ast.Name):
+                                    env.pop(t.id, None)
+                elif isinstance(st, ast.While):
+                    walk(st.body, cn, signs, env, ivar)
+                elif isinstance(st, ast.Assign) and len(st.targets) == 1 and isinstance(st.targets[0], ast.Name):
+                    env[st.targets[0].id] = _subst(st.value, env)
+                elif isinstance(st, ast.Assign) and len(st.targets) == 1 and isinstance(st.targets[0], ast.Subscript):
+                    tgt = st.targets[0]
+                    br = _bound_ref(prog, fn, tgt)
+                    if br is None or not (isinstance(tgt.value, ast.Name) and tgt.value.id == dom):
+                        continue
+                    val = _subst(st.value, env)
+                    if not any(isinstance(x, ast.BinOp) and isinstance(x.op, (ast.FloorDiv, ast.Div)) for x in ast.walk(val)):
+                        continue
+                    if not any(isinstance(x, ast.Name) and x.id in acc_tbl for x in ast.walk(val)):
+                        continue
+                    n_sites += 1
+                    judge(st, br, val, cn, signs)
+
+        def walk_loop(loop: ast.For, names: List[str], env: Dict[str, ast.expr]) -> None:
+            # the coefficient name of this loop: a loop target tested against 0 somewhere in the body
+            cn = None
+            for x in ast.walk(loop):
+                if isinstance(x, ast.If):
+                    cn = next((nm for nm in names if _sign_of_test(x.test, nm) is not None), None)
+                    if cn:
+                        break
+            walk(loop.body, cn, SIGNS, env, None)
+
+        def judge(st: ast.Assign, br: Tuple[str, str], val: ast.expr, cn: Optional[str], signs: frozenset) -> None:
+            row, cell = br
+            loc = f"{fn.path}:{st.lineno}"
+            # peel min(...)/max(...) with the stored cell itself: the candidate is the other argument
+            cands = [val]
+            if isinstance(val, ast.Call) and isinstance(val.func, ast.Name) and val.func.id in ("min", "max") and len(val.args) == 2:
+                others = [a for a in val.args if _bound_ref(prog, fn, a) != br or not (isinstance(a, ast.Subscript) and isinstance(a.value, ast.Name) and a.value.id == dom)]
+                if len(others) == 1:
+                    cands = others
+            cand = cands[0]
+            r = _Rnd()
+            try:
+                _decomp(cand, +1, r, cn, lambda x: ("MIN" if prog.fold(fn.module, x) == prog.C("MIN") else "MAX" if prog.fold(fn.module, x) == prog.C("MAX") else None)
+                        if isinstance(x, (ast.Name, ast.Constant)) else None)
+            except _NoDecomp as ex:
+                raise AnalysisError(f"R-AFFINE-BOUND: {fn.name} line {st.lineno}: the stored value `{ast.unparse(cand)}` holds an accumulator under a division "
+                                    f"but is not of the form base + acc // c ({ex})")
+            sg = sorted(signs - {"zero"})
+            if len(r.quots) != 1 or len(r.cells) != 1 or r.other or len(sg) != 1 or cn is None:
+                raise AnalysisError(f"R-AFFINE-BOUND: {fn.name} line {st.lineno}: `{ast.unparse(cand)}` under signs {sorted(signs)} is not one base cell plus one quotient")
+            sign = sg[0]
+            (osign, acc, parity, rdown) = r.quots[0]
+            (bsign, brow, bbound) = r.cells[0]
+            want_b = acc_tbl[acc].get(sign)
+            inst = f"{fn.name}:{cell}:{sign}"
+            good = True
+            if bsign != 1 or want_b is None or bbound != want_b:
+                good = False
+                ctx.violation("R-AFFINE-BOUND", fn.path, fn.name, f"own-contribution:{cell}:{sign}", loc,
+                              f"{fn.name}: for a {'positive' if sign == 'pos' else 'negative'} coefficient the accumulator `{acc}` has subtracted c * x[i, {want_b}], "
+                              f"but the bound stored into x[i, {cell}] is built on x[i, {bbound}]: the variable's own contribution is not the one added back, "
+                              "so the bound is computed from a sum that is not the sum of the others (values are removed or violating tuples kept)")
+            if good and cell == bbound:
+                good = False
+                ctx.violation("R-AFFINE-BOUND", fn.path, fn.name, f"store-side:{cell}:{sign}", loc,
+                              f"{fn.name}: `x[i, {bbound}] + {acc} / c` bounds the {'MAX' if bbound == 'MIN' else 'MIN'} of the variable; it is stored into x[i, {cell}]")
+            if good and parity != 1:
+                good = False
+                ctx.violation("R-AFFINE-BOUND", fn.path, fn.name, f"quotient-sign:{cell}:{sign}", loc,
+                              f"{fn.name}: the value stored into x[i, {cell}] is x[i, {bbound}] - {acc} / c over the reals; the bound implied by the accumulator is x[i, {bbound}] + {acc} / c")
+            if good and ((cell == "MAX") != rdown):
+                good = False
+                ctx.violation("R-AFFINE-BOUND", fn.path, fn.name, f"rounding:{cell}:{sign}", loc,
+                              f"{fn.name}: the quotient entering the {cell} stored for a {'positive' if sign == 'pos' else 'negative'} coefficient is rounded "
+                              f"{'down' if rdown else 'up'}: an integer {'maximum' if cell == 'MAX' else 'minimum'} derived from a rational bound is its "
+                              f"{'floor' if cell == 'MAX' else 'ceiling'}; rounded the other way a value excluded by the constraint stays in the domain and a "
+                              "violating single tuple is not rejected")
+            if good:
+                ctx.ok("R-AFFINE-BOUND", inst, sample={"acc": acc, "base": bbound, "cell": cell, "sign": sign, "rounding": "down" if rdown else "up", "line": st.lineno})
+
+        walk(fn.node.body, None, SIGNS, {}, None)
+    ctx.floor("R-AFFINE-BOUND:division-derived stores", n_sites, 8)
+
+
+class _NoDecomp(Exception):
+    pass
+
+
+def _subst(e: ast.expr, env: Dict[str, ast.expr]) -> ast.expr:
+    class S(ast.NodeTransformer):
+        def visit_Name(self, node: ast.Name) -> ast.AST:
+            if isinstance(node.ctx, ast.Load) and node.id in env:
+                return env[node.id]
+            return node
+    import copy as _copy
+    return S().visit(_copy.deepcopy(e))
+
+
+def _decomp(e: ast.expr, sign: int, r: "_Rnd", cn: Optional[str], bf: Any = None) -> None:
+    """e (taken with `sign`) as a sum of domain cells and quotient terms acc // (+-c)."""
+    if isinstance(e, ast.UnaryOp) and isinstance(e.op, ast.USub):
+        return _decomp(e.operand, -sign, r, cn, bf)
+    if isinstance(e, ast.UnaryOp) and isinstance(e.op, ast.UAdd):
+        return _decomp(e.operand, sign, r, cn, bf)
+    if isinstance(e, ast.BinOp) and isinstance(e.op, ast.Add):
+        _decomp(e.left, sign, r, cn, bf)
+        return _decomp(e.right, sign, r, cn, bf)
+    if isinstance(e, ast.BinOp) and isinstance(e.op, ast.Sub):
+        _decomp(e.left, sign, r, cn, bf)
+        return _decomp(e.right, -sign, r, cn, bf)
+    if isinstance(e, ast.BinOp) and isinstance(e.op, ast.FloorDiv):
+        ns, acc = _signed_name(e.left)
+        ds, den = _signed_name(e.right)
+        if acc is None or den is None or den != cn:
+            raise _NoDecomp(f"quotient `{ast.unparse(e)}` is not (+-accumulator) // (+-coefficient)")
+        # value = sign * floor(ns*acc / (ds*c)); real = sign*ns*ds * acc/c; floor rounds down, so the term is rounded down iff sign == +1
+        r.quots.append((sign, acc, sign * ns * ds, sign == 1))
+        return
+    if isinstance(e, ast.Subscript):
+        sl = e.slice
+        elts = list(sl.elts) if isinstance(sl, ast.Tuple) else [sl]
+        b = bf(elts[1]) if (bf is not None and len(elts) == 2) else None
+        if b is not None:
+            r.cells.append((sign, ast.unparse(e.value) + "[" + ast.unparse(elts[0]) + "]", b))
+            return
+    if isinstance(e, ast.Constant) and e.value == 0:
+        return
+    raise _NoDecomp(f"term `{ast.unparse(e)}`")
+
+
+def _signed_name(e: ast.expr) -> Tuple[int, Optional[str]]:
+    s = 1
+    while isinstance(e, ast.UnaryOp) and isinstance(e.op, (ast.USub, ast.UAdd)):
+        if isinstance(e.op, ast.USub):
+            s = -s
+        e = e.operand
+    return (s, e.id) if isinstance(e, ast.Name) else (s, None)
